@@ -32,6 +32,6 @@ def replay(ctx, path):
     r = json.load(open(path))["replay"]
     ctx.build()
     c = r.get("case") or r.get("event")
-    f = os.path.join(ctx.scratch, "one.ndjson"); open(f, "w").write(json.dumps(c) + "\n")
+    f = os.path.join(ctx.scratch, "one.ndjson"); open(f, "w").write("".join(json.dumps(x) + "\n" for x in (c if isinstance(c, list) else [c]) if x.get("data") is not None))
     out = os.path.join(ctx.scratch, "one_res.ndjson")
     ctx.vh_ok(["c17-replay", f, out]); run_results(ctx, out, "replay")
